@@ -184,6 +184,8 @@ class CallsMixin:
         simple = {'str': K._Str, 'six.text_type': K._Str, 'six.string_types': K._Str,
                   'bool': K._Bool, 'int': K._Int, 'list': K.Seq, 'tuple': K.Tuple,
                   'dict': (K.Map, K.Rec), 'set': K.Set, 'six.integer_types': K._Int}
+        if cname in self.w.builtin_classes and isinstance(k, K.Ref):
+            cname = self.w.builtin_classes[cname]
         if cname in simple:
             if cname in ('int', 'six.integer_types') and isinstance(k, K._Bool):
                 return notnone
@@ -862,7 +864,15 @@ class CallsMixin:
             if name == 'rsplit':
                 return self.str_split(base, args, node, right=True)
             if name == 'join':
-                raise Unsupported('str.join')
+                arg = args[0]
+                if isinstance(arg, PyObj) and arg.tag == 'emptylist':
+                    return K.vstr('')
+                if isinstance(arg, V) and isinstance(arg.kind, K.Seq) and isinstance(arg.kind.elem, K._Str):
+                    # the text is an uninterpreted function of separator and parts (total: never raises for str parts)
+                    f = self.p.ctx.ufunc('str_join', z3.StringSort(), z3.IntSort(), arg.terms[1].sort(), z3.StringSort())
+                    return K.vstr(f(base.t, arg.terms[0], arg.terms[1]))
+                self.implicit_raise(z3.BoolVal(False), 'TypeError', 'join of non-string items', node)
+                raise PathEnd()
         if upd is None and res is K.NONE:
             raise Unsupported('method %s on %r (line %s)' % (name, k, node.lineno))
         if upd is not None:
